@@ -750,7 +750,12 @@ func (ex *Exec) postconditions() {
 			ex.curBlk = r.blk
 			t, err := env.trBool(e.E)
 			if err != nil {
-				unsup("%s:%d: ensures[%s]: %v", e.File, e.Line, e.Label, err)
+				if isMissingCall(err) {
+					t = "false"
+					e = &Clause{Label: e.Label, Src: e.Src + "   [clause does not bind to the code: " + err.Error() + "]", E: e.E, File: e.File, Line: e.Line}
+				} else {
+					unsup("%s:%d: ensures[%s]: %v", e.File, e.Line, e.Label, err)
+				}
 			}
 			parts = append(parts, fmt.Sprintf("(=> %s %s)", r.pc, t))
 			if os.Getenv("GOVC_SPLIT") != "" {
@@ -775,6 +780,12 @@ func (ex *Exec) postconditions() {
 	// propagates: error of call k non-nil (and call not re-executed) ==> function's error result non-nil
 	for _, pr := range con.Propag {
 		ex.propagates(pr)
+	}
+	// before/after clauses that name a specific call site (#n) which the body does not contain
+	for _, ca := range con.Asserts {
+		if ca.Ord != 0 && !ex.assertHit[ca] {
+			ex.bindingFail("assert", ca.Clause.Label, ca.Clause.Src, fmt.Sprintf("no call %s#%d in the function body", ca.Callee, ca.Ord), fmt.Sprintf("%s:%d", ca.Clause.File, ca.Clause.Line))
+		}
 	}
 	// canary: reachability of some return under all assumptions (must be satisfiable)
 	var pcs []string
@@ -846,7 +857,7 @@ func (ex *Exec) propagates(ref string) {
 			Src: "error of " + ref + " reaches the caller"})
 	}
 	if !found {
-		unsup("propagates %s: no such call in %s", ref, g.curFunc)
+		ex.bindingFail("propagates", ref, "error of "+ref+" reaches the caller", "no such call in the function body", "")
 	}
 }
 
